@@ -131,6 +131,16 @@ def main():
             rc = 0
         if rc != 0:
             tail = open(os.path.join(work, "w%d.log" % w)).read()[-3000:]
+            # race build: fd 2 of a run is redirected to a scratch file, a fatal runtime
+            # error of the process ends up there
+            for cf in glob.glob("/dev/shm/verif-race-%d-*.txt" % p.pid) + glob.glob("/tmp/verif-race-%d-*.txt" % p.pid):
+                try:
+                    txt = open(cf).read()
+                    i = txt.find("fatal error")
+                    tail += "\n[stderr of the dying run]\n" + (txt[i:i + 2500] if i >= 0 else txt[-2500:])
+                    os.remove(cf)
+                except OSError:
+                    pass
             trouble.append("worker %d exited with %s:\n%s" % (w, rc, tail))
     run_s = time.time() - t_run
     results = []
